@@ -571,7 +571,7 @@ func directed() []input {
 				{T: p, Acts: []act{{Tgt: 0, K: 3}, {Tgt: 0, K: 3}, {Tgt: 0, K: 0}}},
 				{T: p, Sec: true, Acts: []act{{Tgt: 0, K: 0}, {Tgt: 0, K: 1}}},
 				{T: 2*p + 1, Acts: tl(0)}, {T: 2*p + 1, Acts: tl(1)}, {T: 3*p - 1, Acts: tl(2)}}})
-		// TickNow after the tick at the same instant was handled (C09's drop): no tick, by design of the guard
+		// TickNow after the tick at the same instant was handled: the next clock edge is scheduled (fix f717b29c; it was dropped before, F-C09-1)
 		out = append(out, input{Comps: []compIn{{F: f, Prog: []bool{false}}},
 			Env: []envIn{{T: 5 * p, Acts: tl(0)}, {T: 5 * p, Sec: true, Acts: tl(0)}}})
 		// TickLater then TickNow at an edge: TickNow is absorbed by the later tick
